@@ -64,3 +64,6 @@ EQUIVALENT = [
     ('reporter: set_complete via private', E, "        self._set_value(self.value_max, **kwargs)", "        self._set_value(self._value_max, **kwargs)"),
     ('reporter: reset via private max', E, "            self.value_max = value_max  # the setter re-arms when the maximum is raised", "            if value_max > self._value_max:\n                self._has_completed = False\n            self._value_max = value_max"),
 ]
+BREAKING.append(('reset un-silences the emitter', E, "        \"\"\"Remove all registered callbacks.\"\"\"\n        self._callbacks = []", "        \"\"\"Remove all registered callbacks.\"\"\"\n        self._callbacks = []\n        self.is_silent = False", ['C19.P7']))
+BREAKING.append(('connect un-silences the emitter', E, "        self._callbacks.append((event, sender, func, kwargs))", "        self.is_silent = False\n        self._callbacks.append((event, sender, func, kwargs))", ['C19.P7']))
+EQUIVALENT.append(('flag initialised before the registry', E, "        self.reset()\n        self.is_silent = False", "        self.is_silent = False\n        self.reset()"))
